@@ -453,6 +453,9 @@ def members_oracle(env, items, info, m):
         sch = info.schemas[fn]
         fake = F.CT(gel.name, gel.content, gel.attrs)
         out += O.check_struct_members(env, items, sch, fake, gel.name, mp, tag=' (anonymous-typed global element)')
+    for fn, ct, base in getattr(info, 'derived', []):
+        bf = inherited_fields(env, info, base[0], base[1], mp)
+        out += O.check_struct_members(env, items, info.schemas[fn], ct, ct.name, mp, base_fields=bf, tag=' (derived)')
     for fn, st in getattr(info, 'simple', []):
         name = pascal(st.name)
         n = len(O.find_structs(items, name, env.allowed))
@@ -466,7 +469,7 @@ def members_oracle(env, items, info, m):
 
 def c02(tier):
     def body(s):
-        fams = F.s_seq(tier) + F.s_nest(tier) + [F.s_ref_anon_fwd(tier), F.s_xns(tier), F.s_typenames(tier)]
+        fams = F.s_seq(tier) + F.s_nest(tier) + [F.s_ref_anon_fwd(tier), F.s_xns(tier), F.s_typenames(tier), F.s_shapes(tier)]
         s.functions.update(n for n in s.ctx.bodies if re.search(r'try_from_node|import_|read_(xsd|sequence|complex)|as_rust_type|write_(complex|type_alias)|field', n) and '::tests::' not in n)
         for sc, info in fams:
             scenario_check(s, sc, info, members_oracle, classify=occ_class)
@@ -475,7 +478,7 @@ def c02(tier):
             s.parts['kani_builtin_table'] = e1props.c02_table_part(s.rep, tier)
             s.assumptions.append('Kani part: to_pascal_case stubbed by a tagging function; RandomState::new stubbed (no getrandom under Kani)')
     return run_e2('C02', tier, body, bounds='scenario families S-seq, S-nest (sequence/choice inside sequence), S-ref-anon-fwd (all or 4 declaration '
-                  'orders), S-xns (imported namespace); per member: name over %d case styles incl. keywords, type over the 27 builtins + user types, '
+                  'orders), S-xns (imported namespace), S-typenames (type / element names incl. builtin-like and xml-leading ones), S-shapes (choice or xs:all as the content model, annotations among the particles, choice directly under xs:extension); per member: name over %d case styles incl. keywords, type over the 27 builtins + user types, '
                   'minOccurs in {absent,0,1}, maxOccurs in {absent,1,2,unbounded} on the element and on the enclosing particle, use in {absent,optional,required}. '
                   'Outside: deeper nesting, more than 4 members per content model.' % (12 if tier == 'thorough' else 9))
 
